@@ -15,7 +15,7 @@
    default comes back as the default (only -0.0 vs +0.0 differ). *)
 From Coq Require Import List NArith ZArith Bool Arith Lia.
 From TarsV Require Import Gen.Consts Base.Hex Codec.Wire Codec.Skip Codec.Prim Codec.GenCodec Codec.Corr
-  Codec.RoundTrip Codec.RoundTripProofs Codec.SkipProofs Frame.Framing Rpc.Filters Rpc.FiltersProofs Rpc.EndToEnd Rpc.EndToEndProofs Rpc.EndToEndConc Rpc.ValueWire.
+  Codec.RoundTrip Codec.RoundTripProofs Codec.SkipProofs Frame.Framing Rpc.Filters Rpc.FiltersProofs Rpc.EndToEnd Rpc.EndToEndProofs Rpc.EndToEndConc Rpc.ValueWire Rpc.PriorIndep.
 Import ListNotations.
 Open Scope N_scope.
 
@@ -394,14 +394,17 @@ Section Full.
   Lemma ret_fields_fine f : ret_ok f -> Forall member_fine (ret_fields f).
   Proof. unfold ret_ok, ret_fields. destruct (fs_ret f); intros H; constructor; [|constructor]. destruct H. repeat split; assumption. Qed.
 
-  Theorem results_decode_full f args vs :
-    results_typed f vs -> sig_args_ok f -> ret_ok f -> outs_fresh f args -> fuel_static (rsp_fields f) ->
-    results_decode e f args vs (norm_fields e vs (rsp_fields f)).
+  (* core: any targets for the out parameters that look like fresh variables *)
+  Lemma results_decode_priors f ps vs :
+    results_typed f vs -> sig_args_ok f -> ret_ok f -> Forall2 (fun fd p => zlike e (fty fd) p) (out_fields f) ps ->
+    fuel_static (rsp_fields f) ->
+    dec_list e (rsp_fields f) (zeros e (ret_fields f) ++ ps) (EndToEnd.enc_fields e (rsp_fields f) vs)
+    = DOk (norm_fields e vs (rsp_fields f)) [].
   Proof.
-    intros Hty [Hfine Hlen] Hret Hfresh Hfuel. exists []. unfold dec_list. rewrite enc_fields_bridge.
+    intros Hty [Hfine Hlen] Hret Hfresh Hfuel. unfold dec_list. rewrite enc_fields_bridge.
     assert (Hmem : Forall member_fine (rsp_fields f)).
     { unfold rsp_fields. apply Forall_app. split; [now apply ret_fields_fine|]. unfold out_fields. now apply picked_fine. }
-    pose proof (fields_rt (rsp_fields f) vs (zeros e (ret_fields f) ++ outs_of f args) [] Hty Hmem) as H.
+    pose proof (fields_rt (rsp_fields f) vs (zeros e (ret_fields f) ++ ps) [] Hty Hmem) as H.
     rewrite app_nil_r in H. apply H; clear H.
     - unfold rsp_fields, ret_fields, out_fields. destruct (fs_ret f); cbn [app].
       + cbn [schema_ascending mkfield ftag]. split; [lia|]. apply picked_ascending; lia.
@@ -409,6 +412,35 @@ Section Full.
     - unfold rsp_fields. apply Forall2_app; [|exact Hfresh]. apply zeros_zlike. now apply ret_fields_fine.
     - intros; apply follows_nil.
     - exact Hfuel.
+  Qed.
+
+  Theorem results_decode_full f args vs :
+    results_typed f vs -> sig_args_ok f -> ret_ok f -> outs_fresh f args -> fuel_static (rsp_fields f) ->
+    results_decode e f args vs (norm_fields e vs (rsp_fields f)).
+  Proof. intros Hty Hs Hret Hfresh Hfuel. exists []. now apply results_decode_priors. Qed.
+
+  (* ANY content of the caller's out variables: a required non-array member decodes independently of its target
+     (Rpc/PriorIndep.v), so decoding into the caller's variables is decoding into fresh ones *)
+  Definition no_array_params (f : fsig) : Prop :=
+    Forall (fun p => not_array (fst p) = true) (fs_args f) /\ match fs_ret f with Some t => not_array t = true | None => True end.
+
+  Lemma rsp_fields_plain f : no_array_params f -> Forall plain_required (rsp_fields f).
+  Proof.
+    intros [Ha Hr]. unfold rsp_fields. apply Forall_app. split.
+    - unfold ret_fields. destruct (fs_ret f); constructor; [split; [reflexivity|exact Hr]|constructor].
+    - unfold out_fields. generalize 1. revert Ha. generalize (fs_args f). induction l as [|[t o] l IH]; intros Ha i; [constructor|].
+      inversion Ha as [|? ? Ht Hl]; subst. cbn [arg_fields filter snd]. destruct o; cbn [map fst]; [constructor; [split; [reflexivity|exact Ht]|]|]; now apply IH.
+  Qed.
+
+  Theorem results_decode_any_outs f args vs :
+    results_typed f vs -> sig_args_ok f -> ret_ok f -> no_array_params f -> fuel_static (rsp_fields f) ->
+    results_decode e f args vs (norm_fields e vs (rsp_fields f)).
+  Proof.
+    intros Hty Hs Hret Hna Hfuel. exists []. unfold dec_list.
+    rewrite (dec_fields_prior_indep e _ (rsp_fields f) (zeros e (ret_fields f) ++ outs_of f args)
+               (zeros e (ret_fields f) ++ zeros e (out_fields f)) _ (rsp_fields_plain f Hna)).
+    apply results_decode_priors; try assumption.
+    apply zeros_zlike. destruct Hs as [Hfine _]. unfold out_fields. now apply picked_fine.
   Qed.
 End Full.
 
@@ -436,7 +468,7 @@ Section FullCall.
   Theorem transparent_ok_full (Pc Ps : pfilters ev unit) i f args o id sv t ret outs rc rs :
     let q := mkreq e f args o false id sv t in
     find_fn i (fs_name f) = Some f -> sig_fine f ->
-    args_typed e (fs_args f) args -> outs_skippable f args -> outs_fresh e f args ->
+    args_typed e (fs_args f) args -> outs_skippable f args -> no_array_params f ->
     impl (fs_name f) (ins_seen f args) (ctx_of o) (status_of o) = IOk ret outs rc rs ->
     results_typed e f (results ret outs) ->
     wire_ok_req e sid_req max_pkt q -> wire_ok_rsp e sid_rsp max_pkt (ok_reply e f q ret outs rc rs) ->
@@ -448,7 +480,7 @@ Section FullCall.
     apply (transparent_ok_decoded e sid_req sid_rsp max_pkt impl Pc Ps i f args (ins_seen f args) o id sv t ret outs rc rs
              (results_seen f ret outs)); try assumption.
     - now apply (args_decode_any e k n Hwf Hk).
-    - now apply (results_decode_full e k n Hwf Hk).
+    - now apply (results_decode_any_outs e k n Hwf Hk).
   Qed.
 
   Theorem transparent_err_full (Pc Ps : pfilters ev unit) i f args o id sv t c m :
@@ -592,7 +624,7 @@ Section Packets.
   Theorem transparent_ok_closed (Pc Ps : pfilters ev unit) i f args o id sv t ret outs rc rs :
     let q := mkreq e f args o false id sv t in
     find_fn i (fs_name f) = Some f -> sig_fine e k n f ->
-    args_typed e (fs_args f) args -> outs_skippable f args -> outs_fresh e f args ->
+    args_typed e (fs_args f) args -> outs_skippable f args -> no_array_params f ->
     impl (fs_name f) (ins_seen e f args) (ctx_of o) (status_of o) = IOk ret outs rc rs ->
     results_typed e f (results ret outs) ->
     req_sendable q -> rsp_sendable (ok_reply e f q ret outs rc rs) ->
@@ -604,6 +636,29 @@ Section Packets.
     apply (transparent_ok_full e k n Hwf Hk64); try assumption.
     - now apply wire_ok_req_full.
     - now apply wire_ok_rsp_full.
+  Qed.
+
+  (* exact values, any content of the caller's out variables: for values the codec does not normalise
+     ([ins_seen] = the in arguments, [results_seen] = the results; always so unless an optional scalar struct member
+     equals its default without being identical to it, i.e. -0.0 against +0.0) *)
+  Definition canonical_call (f : fsig) (args : list val) (ret : option val) (outs : list val) : Prop :=
+    ins_seen e f args = ins_of f args /\ results_seen e f ret outs = results ret outs.
+
+  Theorem transparent_ok_any_outs (Pc Ps : pfilters ev unit) i f args o id sv t ret outs rc rs :
+    let q := mkreq e f args o false id sv t in
+    find_fn i (fs_name f) = Some f -> sig_fine e k n f ->
+    args_typed e (fs_args f) args -> outs_skippable f args -> no_array_params f ->
+    impl (fs_name f) (ins_of f args) (ctx_of o) (status_of o) = IOk ret outs rc rs -> ret_shape f ret ->
+    results_typed e f (results ret outs) -> canonical_call f args ret outs ->
+    req_sendable q -> rsp_sendable (ok_reply e f q ret outs rc rs) ->
+    call e sid_req sid_rsp max_pkt impl (filters_of inv_res Pc) (filters_of disp_res Ps) i f args o false id sv t =
+    (COk ret outs (maps_after o rc rs), core_events Pc Ps f args o true).
+  Proof.
+    cbn zeta. intros Hf Hsig Hty Hsk Hna Himpl Hshape Hrty [Hci Hcr] Hq Hp.
+    rewrite (transparent_ok_closed Pc Ps i f args o id sv t ret outs rc rs); try assumption.
+    - unfold core_events. rewrite Hci, Hcr. f_equal. unfold ret_of, outs_from, results. unfold ret_shape in Hshape.
+      destruct (fs_ret f), ret; try contradiction; reflexivity.
+    - now rewrite Hci.
   Qed.
 
   Theorem transparent_err_closed (Pc Ps : pfilters ev unit) i f args o id sv t c m :
@@ -665,9 +720,8 @@ Section Packets.
   Qed.
 End Packets.
 
-(* ---------- the value clause at full strength (every signature, any content of the caller's out variables, exact
-   values): kept as a statement; refuted on the model and on the code by a pre-filled out variable
-   (Rpc/EndToEndExamples.v, prefilled_out_refutes) ---------- *)
+(* ---------- the value clause for ANY content of the caller's out variables, as a closed statement (proved in
+   Props/C01.v from transparent_ok_any_outs) ---------- *)
 Definition transparent_ok_statement : Prop :=
   forall e k n sid_req sid_rsp max impl (Pc Ps : pfilters ev unit) i f args o id sv t ret outs rc rs,
     wf_schema k e -> (k <= 40)%nat ->
@@ -675,8 +729,16 @@ Definition transparent_ok_statement : Prop :=
     max < 4294967296 ->
     let q := mkreq e f args o false id sv t in
     find_fn i (fs_name f) = Some f -> sig_fine e k n f -> args_typed e (fs_args f) args -> outs_skippable f args ->
+    no_array_params f ->
     impl (fs_name f) (ins_of f args) (ctx_of o) (status_of o) = IOk ret outs rc rs -> ret_shape f ret ->
-    results_typed e f (results ret outs) ->
+    results_typed e f (results ret outs) -> canonical_call e f args ret outs ->
     req_sendable e sid_req max q -> rsp_sendable e sid_rsp max (ok_reply e f q ret outs rc rs) ->
     fst (call e sid_req sid_rsp max impl (filters_of inv_res Pc) (filters_of disp_res Ps) i f args o false id sv t)
     = COk ret outs (maps_after o rc rs).
+
+Theorem transparent_ok_statement_holds : transparent_ok_statement.
+Proof.
+  intros e k n sid_req sid_rsp max impl Pc Ps i f args o id sv t ret outs rc rs Hwf Hk Hq Hp Hm. cbn zeta. intros.
+  rewrite (transparent_ok_any_outs e k Hwf Hk sid_req sid_rsp Hq Hp max Hm n impl Pc Ps i f args o id sv t ret outs rc rs); try assumption.
+  reflexivity.
+Qed.
